@@ -225,7 +225,14 @@ func (in *instr) real(srcKind model.Kind) qframe.Instruction {
 			case model.KBool:
 				q.Fn = func(x *string) bool { return outBool(hf(x)) }
 			default:
-				q.Fn = func(x *string) *string { return outStr(hf(x)) }
+				// like function.StrS / ConcatS in qframe's own function package this one may hand its argument back
+				q.Fn = func(x *string) *string {
+					h := hf(x)
+					if h%3 == 0 {
+						return x
+					}
+					return outStr(h)
+				}
 			}
 		}
 	case "f2":
@@ -245,7 +252,17 @@ func (in *instr) real(srcKind model.Kind) qframe.Instruction {
 				return outBool(h)
 			}
 		default:
-			q.Fn = func(x, y *string) *string { h := hStr(salt, x) ^ hStr(salt+1, y); in.note(h); return outStr(h) }
+			q.Fn = func(x, y *string) *string {
+				h := hStr(salt, x) ^ hStr(salt+1, y)
+				in.note(h)
+				switch h % 4 {
+				case 0:
+					return x
+				case 1:
+					return y
+				}
+				return outStr(h)
+			}
 		}
 	}
 	return q
@@ -299,9 +316,14 @@ func (in *instr) exec(f *model.Frame, rows []int, partial bool) (calls int, argH
 		}
 	case "f1":
 		dst = model.NewCol(in.dst, in.out, n)
+		strToStr := in.out == model.KString && (s1.Kind == model.KString || s1.Kind == model.KEnum)
 		for _, r := range rows {
 			h := hCell(in.salt, s1, r)
-			setOut(dst, r, h)
+			if strToStr && h%3 == 0 {
+				dst.S[r] = s1.S[r] // the function returned its argument
+			} else {
+				setOut(dst, r, h)
+			}
 			calls++
 			argH += h
 		}
@@ -313,7 +335,14 @@ func (in *instr) exec(f *model.Frame, rows []int, partial bool) (calls int, argH
 		dst = model.NewCol(in.dst, k, n)
 		for _, r := range rows {
 			h := hCell(in.salt, s1, r) ^ hCell(in.salt+1, s2, r)
-			setOut(dst, r, h)
+			switch {
+			case k == model.KString && h%4 == 0:
+				dst.S[r] = s1.S[r]
+			case k == model.KString && h%4 == 1:
+				dst.S[r] = s2.S[r]
+			default:
+				setOut(dst, r, h)
+			}
 			calls++
 			argH += h
 		}
